@@ -6,11 +6,13 @@ from props import common as K
 
 META = {
     "level": "other",
+    "technique": "static analysis of type-checked MIR (rustc_private driver): sibling agreement of capture framing across decoder, builder, iterator and encoder; abstract-interpretation pivot tables; order-table decision of the ROA limit check; field-coverage comparison",
     "explanation": "Captured-layout agreement: for every type that stores a bcder::Captured and is both decoded and built, the "
                    "framing (content only vs. including the SEQUENCE header) of the decoder's capture, of the builder's "
                    "captured encoder type (revealed impl Values), of the re-parsing iterator and of the encoder must agree; "
                    "encoder/decoder pivot agreement for X.509 times; field coverage between decoders' struct literals and "
-                   "encode_ref; re-decode sites use the capture's mode.",
+                   "encode_ref; re-decode sites use the capture's mode; the ROA address parser accepts exactly prefix length ≤ "
+                   "[maxLength ≤] family maximum, decided on every ordering of the three numbers.",
     "not_decided": ["byte-for-byte encode(decode(x)) == x", "acceptance of built objects by the validator for all inputs",
                     "accessor equality between built and decoded twins (value equality)"],
     "trusted_base": ["bcder encode::sequence / Constructed write exactly one header around their content"],
